@@ -18,7 +18,7 @@ from recipes import JOBS, B2JOBS, NATIVEJOBS, PROPS  # noqa: E402
 # A property whose statement is a composition of per-function facts that carry another property's name: in the jobs
 # that list the composed property, those obligations count for it as well (e.g. C03 = lossless text (C05) + the next
 # state is a function of the stored data (C19) + the drivers carry the checkpoint state (C03.*)).
-from recipes import COMPOSED_OF  # noqa: E402
+from recipes import COMPOSED_OF, composed  # noqa: E402
 
 OUT = os.environ.get('VP_OUT') or os.path.join(ROOT, 'out')
 EVID = os.environ.get('VP_EVID') or os.path.join(ROOT, 'evidence')
@@ -79,7 +79,7 @@ def match_known(known, prop, ob):
     for k in known:
         if k.get('status') != 'known':
             continue
-        if k['property'] != prop and k['property'] not in COMPOSED_OF.get(prop, ()):
+        if k['property'] != prop and not composed(prop, k.get('obligation') or (k['property'] + '.')):
             continue
         if k.get('obligation') and k['obligation'] == ob.get('name') and (not k.get('job') or k['job'] == ob.get('job')):
             return k
@@ -150,7 +150,7 @@ def check_property(pid, tier, seed, log=print):
             o['backend'] = r['backend']
             # obligations named for another property (shared job) only count for their own property
             if o.get('name') and re.match(r'^C\d\d', o['name']) and not o['name'].startswith(pid + '.'):
-                if o['name'].split('.')[0] in PROPS and o['name'].split('.')[0] not in COMPOSED_OF.get(pid, ()):
+                if o['name'].split('.')[0] in PROPS and not composed(pid, o['name']):
                     continue
             if r['jobdef'].get('bounded'):
                 bounded.append(o)
